@@ -12,6 +12,7 @@ CONSTANTS
   RoaringTwoWrites = TRUE
   RowOpAsync = TRUE
   MultiSeparateWrites = TRUE
+  SnapTmpTruncated = TRUE
   Contentless = FALSE
 INIT Init
 NEXT Next
